@@ -37,7 +37,8 @@ type attrCase struct {
 func linkGrid(rng *rand.Rand, full bool) []attrCase {
 	var cases []attrCase
 	hrefs := []string{"http://example.org/", "/local", "#f", "javascript:alert(1)", "//host/x", "mailto:a@b.c", "http://"}
-	rels := []string{"nofollow", "noopener", "noreferrer", "xnofollowx", "nonoopener", "NOFOLLOW", "me", "", "nofollow noreferrer noopener", "noreferrer nofollow", "a nofollowb"}
+	rels := []string{"nofollow", "noopener", "noreferrer", "xnofollowx", "nonoopener", "NOFOLLOW", "me", "", "nofollow noreferrer noopener", "noreferrer nofollow", "a nofollowb",
+		"tag\u00a0nofollow\u00a0noreferrer\u00a0noopener", "a\vnofollow", "x\u0085noopener", "nofollow\u2003noreferrer", "a\tnofollow\nnoopener\fnoreferrer", "NoOpener"}
 	targets := []string{"_blank", "_self", ""}
 	pool := [][2]string{}
 	for _, h := range hrefs {
